@@ -60,7 +60,8 @@ Theorem agree_implies_holds (c : c04_case) :
   c_dest (k_cfg c) <> c_part (k_cfg c) -> same_dir (c_part (k_cfg c)) = true ->
   agree c = true -> holds c = true.
 Proof.
-  intros Hdp Hpd Ha. unfold agree in Ha. apply andb_true_iff in Ha as [Hrun Hcr].
+  intros Hdp Hpd Ha. unfold agree in Ha. apply andb_true_iff in Ha as [Ha Has].
+  apply andb_true_iff in Ha as [Hrun Hcr].
   assert (Hwf : wf (fs_of_list (k_init c))) by apply wf_fs_of_list.
   assert (Holds0 : content_kill (fs_of_list (k_init c)) (c_dest (k_cfg c)) :: appear_contents (k_sched c) = olds c).
   { unfold olds. rewrite content_kill_init. reflexivity. }
@@ -77,6 +78,14 @@ Proof.
     destruct (crash_safe_lemma (k_cfg c) _ _ _ _ _ _ o w Hdp Hpd Hwf Er) as [Hk _].
     cbn [snd]. unfold dest_of. rewrite Hd, <- Holds0. exact Hk. }
   rewrite H1. cbn [andb].
+  assert (H2 : forallb (fun f => dest_ok (olds c) (new_content (k_body c)) (dest_of c f)) (k_asyncs c) = true).
+  { rewrite forallb_forall in *. intros fobs Hin. specialize (Has _ Hin). unfold agree_async in Has.
+    apply existsb_exists in Has as (k & _ & Hk). unfold run_model in Hk.
+    destruct (run_save (k_cfg c) (k_body c) (k_raises c) (fs_of_list (k_init c)) (k_umask c) (Some k) (k_sched c)) as [o w] eqn:Er.
+    destruct (files_agree_dest _ _ _ _ Hk Hind) as [Hd _].
+    destruct (crash_safe_lemma (k_cfg c) _ _ _ _ _ _ o w Hdp Hpd Hwf Er) as [Hkk _].
+    unfold dest_of. rewrite Hd, <- Holds0. exact Hkk. }
+  rewrite H2. cbn [andb].
   unfold agree_run, run_model in Hrun.
   destruct (run_save (k_cfg c) (k_body c) (k_raises c) (fs_of_list (k_init c)) (k_umask c) None (k_sched c)) as [o w] eqn:Er.
   apply andb_true_iff in Hrun as [Hrun Hf]. apply andb_true_iff in Hrun as [Ho Ht].
